@@ -493,10 +493,8 @@ func main() {
 	}
 
 	// A. dbutils.UpperBound against the model + its defining property on the real function
-	if rn.drv != nil {
-		if err := upperBoundPhase(f, r, rn.drv, res); err != nil {
-			driverDied(err)
-		}
+	if err := upperBoundPhase(f, r, rn.drv, res); err != nil {
+		driverDied(err)
 	}
 
 	// B. which variant of db/memory is this?
@@ -656,7 +654,7 @@ func genKey(r *lib.RNG) []byte {
 	return b
 }
 
-func upperBoundPhase(f lib.Flags, r *lib.RNG, drv *lib.Driver, res *lib.Result) error {
+func upperBoundPhase(f lib.Flags, r *lib.RNG, drv *lib.Driver, res *lib.Result) (died error) {
 	n := f.Scale(2000, 50000)
 	for i := 0; i < n; i++ {
 		p, key := genKey(r), genKey(r)
@@ -665,13 +663,17 @@ func upperBoundPhase(f lib.Flags, r *lib.RNG, drv *lib.Driver, res *lib.Result) 
 		if ub != nil {
 			implS = hx(ub)
 		}
-		modelS, err := askDeadline(drv, "ub "+hx(p))
-		if err != nil {
-			return fmt.Errorf("lean driver died in the UpperBound phase: %w", err)
-		}
-		res.Compared(1)
-		if modelS != implS {
-			res.Mismatch(lib.Mismatch{Sig: "upperBound", Input: hx(p), Model: modelS, Impl: implS})
+		if drv != nil {
+			modelS, err := askDeadline(drv, "ub "+hx(p))
+			if err != nil {
+				died = fmt.Errorf("lean driver died in the UpperBound phase: %w", err)
+				drv = nil // the range oracle below does not need it
+			} else {
+				res.Compared(1)
+				if modelS != implS {
+					res.Mismatch(lib.Mismatch{Sig: "upperBound", Input: hx(p), Model: modelS, Impl: implS})
+				}
+			}
 		}
 		inRange := bytes.Compare(p, key) <= 0 && (ub == nil || bytes.Compare(key, ub) < 0)
 		if bytes.HasPrefix(key, p) != inRange {
@@ -685,5 +687,5 @@ func upperBoundPhase(f lib.Flags, r *lib.RNG, drv *lib.Driver, res *lib.Result) 
 			res.Hit(fmt.Sprintf("ub-len=%d", len(ub)))
 		}
 	}
-	return nil
+	return died
 }
